@@ -34,7 +34,7 @@ Ltac tie := intros;
   cbn [loop set_last removelast app INR];
   [ match goal with H : _ = 0 |- _ => rewrite !H, !Rabs_R0 end; intros _; destruct (Rlt_dec 0 _); [reflexivity | exfalso; lra]
   | repeat split_nosqrt_test; unify_sqrt; unify_r; repeat split_simple_test; intros Hrpos; try discriminate; try lia;
-    first [reflexivity | (apply f_equal; list_eq ltac:(req)) | contra] ].
+    first [reflexivity | (apply f_equal; list_eq ltac:(idtac; req)) | contra] ].
 
 Definition the_prec := 22250738585072014 / 10 ^ 322.
 Lemma tie_1 xb xe db de : geo_gen_1 xb xe db de = geo_model the_prec rfu_sum xb xe db de 1.
